@@ -41,6 +41,43 @@ def run(ctx):
     r7_hash_order(ctx)
     r8_shared_objects(ctx)
     r9_generators_travel_with_their_position(ctx)
+    r10_reduce_covers_constructor(ctx)
+
+
+def r10_reduce_covers_constructor(ctx, rule="C01.R10"):
+    """A component reaches a worker process as `Cls(*args)` when its class defines __reduce__: a constructor argument that is not among `args` silently falls back
+    to its default there (a noise seed, a level list ...), while the in-process run keeps the given value."""
+    ctx.rule(rule, "pickling keeps every constructor argument: wherever a class of the package returns `(OwnClass, args)` from __reduce__, args carries one value per "
+                   "constructor parameter -- a tuple literal of that length, or an attribute that __init__ binds to the tuple of its parameters in their order")
+    n = 0
+    for rel, mod in sorted(ctx.model.modules.items()):
+        if rel.startswith("coba/tests"):
+            continue
+        for cls in [c for c in ast.walk(mod.tree) if isinstance(c, ast.ClassDef)]:
+            red = next((f for f in cls.body if isinstance(f, ast.FunctionDef) and f.name == "__reduce__"), None)
+            if red is None:
+                continue
+            ctor = next((f for f in cls.body if isinstance(f, ast.FunctionDef) and f.name == "__init__"), None) or next((f for f in cls.body if isinstance(f, ast.FunctionDef) and f.name == "__new__"), None)
+            if ctor is None or ctor.args.vararg or ctor.args.kwarg:
+                continue
+            params = [a.arg for a in ctor.args.args[1:]] + [a.arg for a in ctor.args.kwonlyargs]
+            for r in [x for x in walk_shallow(red) if isinstance(x, ast.Return) and isinstance(x.value, ast.Tuple) and len(x.value.elts) >= 2
+                      and isinstance(x.value.elts[0], ast.Name) and x.value.elts[0].id == cls.name]:
+                n += 1
+                args = r.value.elts[1]
+                detail = {"parameters": params}
+                if isinstance(args, ast.Tuple):
+                    ok = len(args.elts) == len(ctor.args.args) - 1 and not ctor.args.kwonlyargs
+                    detail["args"] = [unparse(e) for e in args.elts]
+                elif is_self_attr(args):
+                    binds = [st for st in ast.walk(ctor) if isinstance(st, ast.Assign) and any(unparse(t) == unparse(args) for t in st.targets)]
+                    ok = len(binds) == 1 and isinstance(binds[0].value, ast.Tuple) and [unparse(e) for e in binds[0].value.elts] == params
+                    detail["args"] = [unparse(b.value) for b in binds]
+                else:
+                    ok = False
+                    detail["args"] = unparse(args)
+                ctx.ob(rule, rel, f"{cls.name}.__reduce__", r, "the arguments handed to the constructor on unpickling are all of its parameters, in order", ok, detail=detail)
+    ctx.floor(rule, "__reduce__ implementations returning (OwnClass, args)", n, 3)
 
 
 # ------------------------------------------------------------------------------------------ R1
@@ -675,6 +712,7 @@ def _cache_finally(tree):
 
 
 CONTROLS = [
+    ("Noise pickled without its seed", "coba/environments/filters.py", M.replace_stmt("Noise.__init__", M.text_has("self._args ="), "self._args = (context, action, reward)"), "C01.R10"),
     ("cache marked complete in a finally", "coba/pipes/filters.py", lambda tree: _cache_finally(tree), "C01.R8"),
     ("vw arguments in hash order", "coba/learners/vowpal.py", M.replace_expr("make_args", "sorted(ignore_linear)", "ignore_linear"), "C01.R7"),
     ("LinUCB terms in hash order", "coba/learners/linucb.py", M.replace_expr("LinUCBLearner._initialize", "list(dict.fromkeys(filter(None, [f.replace('x', '') if isinstance(f, str) else f for f in self._X])))",
